@@ -1,7 +1,7 @@
 CONSTANTS
   SegsA = 2
   SegsB = 2
-  Fam = "uri"
+  Fam = "iri"
   Mode = "pct"
 INIT Init
 NEXT Next
